@@ -1013,10 +1013,10 @@ pub fn run_path(host: HostKind, path: &[Act], b: &Bounds, trace: bool) -> RunOut
         }
         {
             // reconcile the reference with lazy releases that have already happened
-            let f = check(host, &rf, &hist, &gauges, &h);
+            let f = check(host, &rf, &hist, &gauges, Some(host_view(&h)));
             if f.iter().any(|x| x.key.starts_with("reference/")) {
                 for alt in rf.alternatives(b) {
-                    let fa = check(host, &alt, &hist, &gauges, &h);
+                    let fa = check(host, &alt, &hist, &gauges, Some(host_view(&h)));
                     if !fa.iter().any(|x| x.key.starts_with("reference/")) {
                         if trace {
                             tr.push("    (a lazily released task has been polled: reference follows)".into());
@@ -1028,7 +1028,7 @@ pub fn run_path(host: HostKind, path: &[Act], b: &Bounds, trace: bool) -> RunOut
             }
         }
         if i + 1 == path.len() || trace {
-            let f = check(host, &rf, &hist, &gauges, &h);
+            let f = check(host, &rf, &hist, &gauges, Some(host_view(&h)));
             if trace {
                 for x in &f {
                     tr.push(format!("    FINDING {}: {}", x.key, x.what));
@@ -1097,7 +1097,22 @@ fn stuck_legacy(host: HostKind, rf: &Ref, hist: &Hist, g: &Gauges) -> usize {
     }
 }
 
-fn check(host: HostKind, rf: &Ref, hist: &Hist, g: &Gauges, h: &Host) -> Vec<Found> {
+fn host_view(h: &Host) -> Option<CView> {
+    match h {
+        Host::B(x) => x.view(),
+        Host::D(x) => Some(capp::view_of(&x.model)),
+        Host::C(x) => Some(x.core.view()),
+    }
+}
+
+/// `view`: the host's view (None in the canaries, which feed doctored gauges and no host).
+fn check(
+    host: HostKind,
+    rf: &Ref,
+    hist: &Hist,
+    g: &Gauges,
+    view: Option<Option<CView>>,
+) -> Vec<Found> {
     let mut e = rf.expected();
     let stuck = stuck_legacy(host, rf, hist, g);
     // each stuck legacy task keeps its slot and the one token it captured
@@ -1224,12 +1239,7 @@ fn check(host: HostKind, rf: &Ref, hist: &Hist, g: &Gauges, h: &Host) -> Vec<Fou
             false,
         );
     }
-    let view = match h {
-        Host::B(x) => x.view(),
-        Host::D(x) => Some(capp::view_of(&x.model)),
-        Host::C(x) => Some(x.core.view()),
-    };
-    if view.as_ref() != Some(&rf.view) {
+    if let Some(view) = view.filter(|v| v.as_ref() != Some(&rf.view)) {
         over(
             "reference/view-differs",
             format!("view {:?}, reference {:?}", view, rf.view),
@@ -1485,6 +1495,63 @@ pub fn run(tier: Tier, args: &[String]) -> i32 {
             mc_kit::machinery_error("C13 canary: the token counter does not count");
         }
     }
+    // canaries for the three projections: the gauge exactly at its allowance is the listed
+    // finding (projectable), ONE above it must be an unlisted, unprojectable one
+    {
+        let unlisted = |f: &[Found], key: &str| f.iter().any(|x| x.key == key && !x.projectable);
+        let listed_only = |f: &[Found], key: &str| {
+            f.iter().any(|x| x.key == key && x.projectable) && f.iter().all(|x| x.projectable)
+        };
+        // K3: one notification sent, one Never entry; a second Never entry is something else
+        let o = run_path(HostKind::Bridge, &[Act::Render], &b, false);
+        let mut g = o.gauges.clone();
+        let at = check(HostKind::Bridge, &o.rf, &o.hist, &g, None);
+        g.registry.0 += 1;
+        let above = check(HostKind::Bridge, &o.rf, &o.hist, &g, None);
+        if !listed_only(&at, "registry/never-entry")
+            || !unlisted(&above, "registry/used-up-entry-not-removed")
+        {
+            mc_kit::machinery_error("C13 canary: the K3 projection absorbs an extra Never entry");
+        }
+        // K4: one clear() after finish, one stale id; a second id is something else
+        let o = run_path(
+            HostKind::Bridge,
+            &[Act::LTimerSet, Act::LTimerFire, Act::LTimerClear],
+            &b,
+            false,
+        );
+        let mut g = o.gauges.clone();
+        let at = check(HostKind::Bridge, &o.rf, &o.hist, &g, None);
+        g.cleared += 1;
+        let above = check(HostKind::Bridge, &o.rf, &o.hist, &g, None);
+        if !listed_only(&at, "cleared-set/clear-after-finish")
+            || !unlisted(&above, "cleared-set/exceeds-live-timers")
+        {
+            mc_kit::machinery_error("C13 canary: the K4 projection absorbs an extra cleared id");
+        }
+        // legacy: one dropped legacy request, one slot + one token; one more of either is not it
+        let o = run_path(HostKind::Core, &[Act::ReqL, Act::Drop(0)], &b, false);
+        let at = check(HostKind::Core, &o.rf, &o.hist, &o.gauges, None);
+        let mut g = o.gauges.clone();
+        g.tasks += 1;
+        let slot_above = check(HostKind::Core, &o.rf, &o.hist, &g, None);
+        let mut g = o.gauges.clone();
+        g.tokens += 1;
+        let token_above = check(HostKind::Core, &o.rf, &o.hist, &g, None);
+        let mut hist2 = o.hist.clone();
+        hist2.dropped_legacy = 0;
+        let not_legacy = check(HostKind::Core, &o.rf, &hist2, &o.gauges, None);
+        if b.drop_legacy
+            && (!listed_only(&at, "legacy/dropped-request-task-never-released")
+                || !unlisted(&slot_above, "executor/tasks-exceed-live-work")
+                || !unlisted(&token_above, "tokens/held-after-finish")
+                || !unlisted(&not_legacy, "executor/tasks-exceed-live-work"))
+        {
+            mc_kit::machinery_error(
+                "C13 canary: the legacy-task projection absorbs a slot or token that is not a dropped legacy request's",
+            );
+        }
+    }
     // harness determinism: one path twice
     {
         let p = [Act::ReqC, Act::Sub, Act::LTimerSet, Act::LTimerClear, Act::Respond(0)];
@@ -1562,7 +1629,7 @@ pub fn run(tier: Tier, args: &[String]) -> i32 {
         "state_key": "(reference: outstanding one-shots with their API in issue order, subscription phase, timer phases, expected view; gauges: registry once/many entries, executor task slots | live commands, sum of Command::verif_live_tasks, queued spawns/wake-ups/effects/events, cleared-timer-set size relative to the start of the path, live drop-tokens). Projected out because a listed finding makes them unbounded (each reported): `Never` registry entries (K3), cleared-set ids of timers cleared after they finished (K4), executor slots and tokens of legacy tasks whose request was dropped (accepted only when exactly one slot per dropped legacy request is stuck)",
         "oracle": "in every reachable state: registry once <= outstanding one-shot requests the shell holds, many <= subscriptions the shell has not been told are finished, never == 0; executor tasks / live commands / command tasks <= live pieces of work; cleared set <= cleared pending timers; live tokens <= tokens owned by live tasks (+ payloads of requests the harness holds); all queues empty after the call; after dropping the host 0 tokens; view == reference view; gauge BELOW the reference = reference error, reported under reference/*",
         "unbounded_history_argument": "the reachable set is closed under the action alphabet: every action from every reachable merged state leads to a reachable merged state, and every gauge in every such state is within its bound",
-        "canary": "gauge sees the still-held task of an aborted, unpolled subscription; token counter counts",
+        "canary": "gauge sees the still-held task of an aborted, unpolled subscription; token counter counts; for each of the three projected findings (K3, K4, never-released legacy task) the oracle fed a gauge exactly at the allowance gives the listed key only, one above it gives an unlisted unprojectable key",
         "samples": samples,
     });
     rep.finish(
